@@ -90,6 +90,24 @@ def r1_full_scan_strict_improvement(cx):
                                 gt_edges.add(("e", bi, k))
                         if t["values"] == [0]:
                             gt_edges.add(("e", bi, 1))
+    # variant: the best length is not kept in a second variable but derived from the best entry in every iteration:
+    # best.map_or(-1, |b| b.claim.prefix_len as isize)
+    derived = None
+    if best_local is not None:
+        dd = defuse(lk).single_def(best_local)
+        if dd and dd[0] == "call" and callee_is(dd[2], "option::Option::map_or") and len(dd[2]["args"]) == 3 and dd[1] in scan.blocks:
+            dflt = op_const(dd[2]["args"][1])
+            cand = op_root(lk, dd[2]["args"][0])
+            rcl = op_root(lk, dd[2]["args"][2])
+            dcl = defuse(lk).single_def(rcl["l"]) if rcl is not None else None
+            clos_ok = False
+            if dcl and dcl[0] == "stmt" and dcl[3]["rv"].get("agg") == "closure":
+                cb = prog.by_did.get(dcl[3]["rv"]["closure_did"])
+                if cb is not None:
+                    rets = [s2 for _b, _s, s2 in cb.stmts() if s2["k"] == "assign" and s2["place"]["l"] == 0 and not s2["place"].get("p")]
+                    clos_ok = len(rets) == 1 and rets[0]["rv"]["k"] in ("use", "cast") and _is_prefix_len(_value_place(cb, rets[0]["rv"]["op"]))
+            if dflt is not None and dflt < 0 and cand is not None and not cand.get("p") and clos_ok:
+                derived = cand["l"]
     cx.check("strict-comparison", bool(gt_edges) and best_local is not None, site_of(lk, scan.header), "the candidate's prefix length is compared strictly (>) with the best so far")
     m_true = success_edges(lk, matches[0][0]).ok_edges if matches else set()
     # every store to the best-so-far locals inside the loop is dominated by both conditions
@@ -110,7 +128,10 @@ def r1_full_scan_strict_improvement(cx):
         for s in lk.blocks[bi]["stmts"]:
             if s["k"] == "assign" and not s["place"].get("p") and (s["place"]["l"] in read_after or s["place"]["l"] == best_local) and lk.local_name(s["place"]["l"]) is not None:
                 upd.append((bi, s))
-    cx.floor("candidate-updates", len(upd), 2, "updates of the best candidate inside the scan")
+    if derived is not None:
+        cx.check("best-length-derived-from-candidate", any(s2["place"]["l"] == derived for _b2, s2 in upd), site_of(lk, scan.header),
+                 "the best length so far is read from the current best entry (None counts as -1), which is the candidate updated by the scan")
+    cx.floor("candidate-updates", len(upd), 1 if derived is not None else 2, "updates of the best candidate inside the scan")
     for bi, s in upd:
         cx.check("update-needs-longer-and-matching:%s" % ("best-length" if s["place"]["l"] == best_local else "candidate"),
                  dominated_by_edges(lk, gt_edges, bi) and dominated_by_edges(lk, m_true, bi), site_of(lk, span=s["span"]),
@@ -122,7 +143,12 @@ def r1_full_scan_strict_improvement(cx):
             cx.check("best-length-from-claim", okp, site_of(lk, span=s["span"]), "the best length so far is updated from the chosen claim's prefix length")
     # initial value below every possible prefix length
     init = [s for bi, si, s in lk.stmts() if s["k"] == "assign" and not s["place"].get("p") and s["place"]["l"] == best_local and bi not in scan.blocks]
-    cx.check("initial-best-below-zero", len(init) == 1 and init[0]["rv"]["k"] == "use" and (op_const(init[0]["rv"]["op"]) or 0) < 0, site_of(lk), "the scan starts with a best length below 0 so that /0 claims can match")
+    if derived is not None:
+        init_c = [s for bi, si, s in lk.stmts() if s["k"] == "assign" and not s["place"].get("p") and s["place"]["l"] == derived and bi not in scan.blocks]
+        cx.check("initial-best-below-zero", len(init_c) == 1 and init_c[0]["rv"]["k"] == "aggregate" and init_c[0]["rv"].get("variant") == "None", site_of(lk),
+                 "the scan starts without a candidate, whose length counts as -1, so that /0 claims can match")
+    else:
+        cx.check("initial-best-below-zero", len(init) == 1 and init[0]["rv"]["k"] == "use" and (op_const(init[0]["rv"]["op"]) or 0) < 0, site_of(lk), "the scan starts with a best length below 0 so that /0 claims can match")
     # the matched address is lookup's own argument
     for ci, ct in matches:
         a = deep_root(lk, ct["args"][1])
